@@ -947,17 +947,16 @@ pub fn str_to_int(s: &SmtString) -> i32 {
         return -1;
     }
 
+    if !s.s.iter().all(|&d| char_is_digit(d)) {
+        return -1;
+    }
+
     let mut x: i32 = 0;
     for &d in &s.s {
-        if char_is_digit(d) {
-            let y = 10 * x + (d as i32 - '0' as i32);
-            if y < x {
-                panic!("Arithmetic overflow in str_to_int");
-            }
-            x = y;
-        } else {
-            return -1;
-        }
+        x = x
+            .checked_mul(10)
+            .and_then(|y| y.checked_add(d as i32 - '0' as i32))
+            .expect("Arithmetic overflow in str_to_int");
     }
     x
 }
